@@ -243,6 +243,38 @@ fn run(input: &Tree) -> Option<Tree> {
                     let y = EcIndividual::new(1u8, TestResults::<Score<f64>>::from(vb));
                     ops(&x, &y, None)
                 }
+                // a value compared with ITSELF through one reference (the second vector is ignored)
+                3 => {
+                    let x: TestResults<Error<f64>> = va.into();
+                    ops(&x, &x, None)
+                }
+                4 => {
+                    let x = EcIndividual::new(1u8, TestResults::<Score<f64>>::from(va));
+                    ops(&x, &x, None)
+                }
+                _ => return None,
+            }
+        }
+        18 => {
+            // building the collection from iterators whose size hints are loose / absent: every result counts for the total
+            let ty = l.get(1)?.int()?;
+            let v = vec64(l.get(2)?)?;
+            let n = v.len();
+            let pack = |r: TestResults<Score<i64>>| {
+                let mut out = vec![a(r.total_result.0)];
+                out.extend(r.results.iter().map(|s| a(s.0)));
+                L(out)
+            };
+            match ty {
+                0 => pack(v.iter().copied().filter(|_| true).collect()),
+                1 => {
+                    let mut it = v.clone().into_iter();
+                    pack(std::iter::from_fn(move || it.next()).collect())
+                }
+                2 => pack(v.iter().copied().take_while(|_| true).into()),
+                3 => pack(v[..n / 2].iter().copied().chain(v[n / 2..].iter().copied().filter(|_| true)).collect()),
+                4 => pack((0..n + 5).filter_map(|i| v.get(i).copied()).collect()),
+                5 => pack(v.iter().copied().flat_map(Some).into()),
                 _ => return None,
             }
         }
@@ -405,6 +437,12 @@ fn gen(tier: &str, rng: &mut Sm) -> Gen {
         }
     }
     g.inputs.push(tl![A(17)]);
+    for ty in 0..6i128 {
+        for _ in 0..8 {
+            g.inputs.push(tl![A(18), a(ty), tv(&small_vec(rng))]);
+        }
+        g.inputs.push(tl![A(18), a(ty), tv(&[5, 8, 0, 9, -3, 4, 4])]);
+    }
     // comparisons of float result collections, with totals that are not comparable
     {
         let fl = |v: &[f64]| L(v.iter().map(|x| a(x.to_bits() as i128)).collect());
@@ -417,6 +455,9 @@ fn gen(tier: &str, rng: &mut Sm) -> Gen {
                 for pol in 0..3i128 {
                     g.inputs.push(tl![A(16), a(pol), fl(x), fl(y)]);
                 }
+            }
+            for pol in 3..5i128 {
+                g.inputs.push(tl![A(16), a(pol), fl(x), fl(&[])]);
             }
         }
     }
